@@ -6,7 +6,7 @@ From RG Require Import Base.Bytes Base.LineTerm Model.Lines Model.SearcherCore S
   Model.RegexBuild Model.RegexLiteral Model.CoreLinePaths
   Proofs.RegexSemProofs Proofs.RegexPassesProofs Proofs.RegexLiteralProofs
   Proofs.LinePathsProofs Proofs.LineLocalityProofs Proofs.LinesProofs Proofs.FindSpecProofs Proofs.RegexCandProofs
-  Model.Glue Spec.GrepSpec.
+  Model.Glue Model.ReadByLine Spec.GrepSpec Proofs.ReaderProofs Proofs.RegexReaderProofs.
 
 (* 1. line locality (PARTIAL: LF terminator; look-around restricted to LF line anchors and the ASCII
       word assertions — see line_locality_unicode_refuted and line_locality_crlf_refuted for why the
@@ -149,6 +149,63 @@ Theorem c01_lines_reported_iff_content_matches_crlf :
     = RunOk (grep_ref cfg (is_match_sem final) s).
 Proof. exact c01_slice_run_eq_ref_crlf_proof. Qed.
 Print Assumptions c01_lines_reported_iff_content_matches_crlf.
+
+(* 9. The incremental reader (ReadByLine::run: roll buffer of any capacity, any failure-free read
+      history): same hypotheses as 7 / 8, conclusion of Props/C02.v reader_eq_ref — the events are
+      those of the grep reference over the lines of the stream with the line test "the final HIR has a
+      match in the content".  With 7 / 8, C01 holds on the model for both strategies of the
+      line-oriented search. *)
+Theorem c01_reader_lines_reported_iff_content_matches :
+  forall norm, norm_ok norm ->
+  forall rc tr final acc span fa cfg,
+    build norm rc tr = inl (final, Some (RTByte 10)) ->
+    local_looks final = true -> span_ok final span ->
+    c_lt cfg = LTByte 10 -> c_binary cfg = BNone ->
+    forall (cap : nat) (stream : bytes) (hist : list read_step), chunks hist ->
+    let M := regex_line_matcher final (Some (RTByte 10)) (fast_line_literals (inner_literals rc acc final)) span fa in
+    let gf := g_run cfg (is_match_sem final) (split_lines (lt_byte (c_lt cfg)) stream) in
+    exists n, read_by_line_run cfg M (fun _ => Continue) AEager cap stream hist
+              = RunOk (EBegin :: rev (g_out gf) ++ [EFinish n None]) /\
+              (g_stopped gf = false -> n = length stream) /\ n <= g_off gf.
+Proof. exact c01_reader_eq_ref_proof. Qed.
+Print Assumptions c01_reader_lines_reported_iff_content_matches.
+
+Theorem c01_reader_lines_reported_iff_content_matches_crlf :
+  forall norm, norm_ok norm ->
+  forall rc tr final acc span fa cfg,
+    build norm rc tr = inl (final, Some RTCrlf) ->
+    local_looks_crlf final = true -> span_ok final span ->
+    c_lt cfg = LTCrlf -> c_binary cfg = BNone ->
+    forall (cap : nat) (stream : bytes) (hist : list read_step), chunks hist ->
+    let M := regex_line_matcher final (Some RTCrlf) (fast_line_literals (inner_literals rc acc final)) span fa in
+    let gf := g_run cfg (is_match_sem final) (split_lines (lt_byte (c_lt cfg)) stream) in
+    exists n, read_by_line_run cfg M (fun _ => Continue) AEager cap stream hist
+              = RunOk (EBegin :: rev (g_out gf) ++ [EFinish n None]) /\
+              (g_stopped gf = false -> n = length stream) /\ n <= g_off gf.
+Proof. exact c01_reader_eq_ref_crlf_proof. Qed.
+Print Assumptions c01_reader_lines_reported_iff_content_matches_crlf.
+
+(* 10. --null-data: a matcher that advertises the NUL terminator is never given the fast path
+       (Core::is_line_by_line_fast), so the slow path's per-line test decides and no locality is
+       needed: every final HIR (Unicode word boundaries included), every literal set, every span
+       function, both strategies, no hypothesis besides "binary detection off" *)
+Theorem c01_null_data_slice : forall final lits span fa cfg s,
+  c_binary cfg = BNone ->
+  slice_by_line_run cfg (regex_line_matcher final (Some (RTByte 0)) lits span fa) (fun _ => Continue) s
+  = RunOk (grep_ref cfg (is_match_sem final) s).
+Proof. exact c01_nul_slice_proof. Qed.
+Print Assumptions c01_null_data_slice.
+
+Theorem c01_null_data_reader : forall final lits span fa cfg,
+  c_binary cfg = BNone ->
+  forall (cap : nat) (stream : bytes) (hist : list read_step), chunks hist ->
+  let M := regex_line_matcher final (Some (RTByte 0)) lits span fa in
+  let gf := g_run cfg (is_match_sem final) (split_lines (lt_byte (c_lt cfg)) stream) in
+  exists n, read_by_line_run cfg M (fun _ => Continue) AEager cap stream hist
+            = RunOk (EBegin :: rev (g_out gf) ++ [EFinish n None]) /\
+            (g_stopped gf = false -> n = length stream) /\ n <= g_off gf.
+Proof. exact c01_nul_reader_proof. Qed.
+Print Assumptions c01_null_data_reader.
 
 (* the fast-line literals of an accepted pattern never contain the advertised (byte) terminator *)
 Theorem literals_free_of_terminator : forall norm rc tr final b acc lits,
